@@ -59,6 +59,9 @@ type cgScenario struct {
 	// "topic/part" -> how many ListOffsets answers for that partition fail (NOT_LEADER): two make one
 	// offset lookup fail, so the first attempt to start a claim on it fails
 	ClaimStartFails map[string]int
+	// LeaderlessAtPlan: "topic/partition" that has no leader from the start until the first SyncGroup of the
+	// run has been answered (the group leader computes its plan while the partition is leaderless)
+	LeaderlessAtPlan string
 	Retention       time.Duration // Consumer.Offsets.Retention (> 0: commits are sent as OffsetCommit v2 with a retention time)
 	Oldest          bool
 	Auto            bool
@@ -395,6 +398,17 @@ func cgCore(tier string) []*cgScenario {
 				Stored: map[string]int64{}, ClaimStartFails: map[string]int{"t/1": fails}, Members: []cgMember{{Behaviour: beh, K: 4, CloseAfter: -1, MaxCalls: 8}}})
 		}
 	}
+	// one partition has no leader while the group leader plans; it is back before the claims start
+	for _, strat := range []string{"range", "roundrobin", "sticky"} {
+		for _, members := range []int{1, 2} {
+			sc := &cgScenario{Brokers: 2, Topics: []string{"t"}, Parts: 3, LogN: 10, Strategy: strat, Auto: true, Oldest: true, Faults: map[string][]int{},
+				Stored: map[string]int64{}, LeaderlessAtPlan: "t/1"}
+			for i := 0; i < members; i++ {
+				sc.Members = append(sc.Members, cgMember{Behaviour: "all", K: 4, CloseAfter: -1, MaxCalls: 6})
+			}
+			out = append(out, sc)
+		}
+	}
 	// committed offsets outside the log: the configured initial position applies
 	for _, oldest := range []bool{true, false} {
 		for _, stored := range []int64{-7, 40} {
@@ -490,6 +504,27 @@ func runGroup(sc *cgScenario, rng *rand.Rand) *cgResult {
 		return sarama.VSimGroupAction{}
 	}
 
+	if sc.LeaderlessAtPlan != "" {
+		var lt string
+		var lp int32
+		if i := strings.LastIndex(sc.LeaderlessAtPlan, "/"); i > 0 {
+			lt = sc.LeaderlessAtPlan[:i]
+			fmt.Sscanf(sc.LeaderlessAtPlan[i+1:], "%d", &lp)
+		}
+		orig := sim.Leader(lt, lp)
+		sim.SetLeader(lt, lp, -1)
+		inner := sim.OnGroup
+		var restored int32
+		sim.OnGroup = func(ctx *sarama.VSimGroupCtx) sarama.VSimGroupAction {
+			if ctx.Kind == "sync" && atomic.CompareAndSwapInt32(&restored, 0, 1) {
+				sim.SetLeader(lt, lp, orig)
+			}
+			if inner != nil {
+				return inner(ctx)
+			}
+			return sarama.VSimGroupAction{}
+		}
+	}
 	if len(sc.ClaimStartFails) > 0 {
 		left := map[string]int{}
 		for k, v := range sc.ClaimStartFails {
